@@ -352,7 +352,7 @@ func (l jsonList) patch(pathBehind, pathAhead Path, before, removeValues, addVal
 
 	// Recursive case
 	if len(rest) > 0 {
-		if int(i) > len(l)-1 {
+		if int(i) > len(l)-1 || int(i) < 0 {
 			return nil, fmt.Errorf("patch index out of bounds: %v", i)
 		}
 		patchedNode, err := l[i].patch(append(pathBehind, n), rest, nil, removeValues, addValues, nil, strategy)
@@ -372,6 +372,10 @@ func (l jsonList) patch(pathBehind, pathAhead Path, before, removeValues, addVal
 		return l, nil
 	}
 
+	if int(i) < 0 || int(i) > len(l) {
+		return nil, fmt.Errorf("patch index out of bounds: %v", i)
+	}
+
 	// Check context before
 	for j, b := range before {
 		bIndex := int(i) - (len(before) - j)
@@ -380,6 +384,8 @@ func (l jsonList) patch(pathBehind, pathAhead Path, before, removeValues, addVal
 			if bIndex == -1 && isVoid(b) {
 				continue
 			}
+			return nil, fmt.Errorf("invalid patch. before context %v out of bounds: %v", b, bIndex)
+		case bIndex > len(l)-1:
 			return nil, fmt.Errorf("invalid patch. before context %v out of bounds: %v", b, bIndex)
 		case !b.Equals(l[bIndex]):
 			return nil, fmt.Errorf("invalid patch. expected %v before. got %v", b, l[bIndex])
